@@ -227,6 +227,16 @@ def run(ctx):
         kw = gen.rand_settings(rng, r, c, with_mld=False, with_max_step=False)
         ctx.count("random_cases")
         one(ctx, mods, np, s1, s2, kw, nd)
+    # scale-up slice: long structured series (ties along constant runs, several shifted rows in the compact layout)
+    for _ in range(ctx.scale(40, 400)):
+        r = rng.randint(20, 70)
+        c = r if rng.random() < 0.3 else max(2, r + rng.choice([-1, 1]) * rng.randint(1, 25))
+        s1, s2 = np.array(gen.structured_series(rng, r)), np.array(gen.structured_series(rng, c))
+        kw = gen.rand_settings(rng, r, c, with_mld=False, with_max_step=False)
+        if kw.get("window"):
+            kw["window"] = rng.choice([1, 2, 3, 5, abs(r - c) + 1, max(r, c) // 3, max(r, c) // 2]) or 1
+        ctx.count("long_series_cases")
+        one(ctx, mods, np, s1, s2, kw, 0)
     # dtw.warp: warped series = per-column means along a valid path
     M = ctx.scale(600, 6000)
     for _ in range(M):
